@@ -142,7 +142,7 @@ func (r *Run) noteGlobalWrite(p *Path, o *Object) {
 func NewRun(in *Interp, capMs int, stats *SolverStats) *Run {
 	ts := NewTermStore()
 	r := &Run{in: in, ts: ts, stats: stats, base: map[int]*Object{}, globals: map[*ssa.Global]int{},
-		maxSteps: 20_000_000, maxEnum: 64, maxPaths: 200000, defUnwind: 16,
+		maxSteps: 20_000_000, maxEnum: 1024, maxPaths: 200000, defUnwind: 16,
 		varCache: map[int]map[int]bool{}, fnUsed: map[string]bool{}, intrCache: map[*ssa.Function]intrinsicFn{},
 		reached: map[string]int{}, assertStats: map[string]*AssertStat{}, ended: map[string]int{}}
 	r.solver = NewSolver(ts, capMs, stats)
